@@ -284,6 +284,48 @@ func readVLQ(d []byte) (uint32, int, bool) {
 // sounding note. Evaluated on the merged stream, with the most lenient
 // ordering inside one tick (releases of sounding notes first).
 func checkNotes(s *SMF) *SMFError {
+	// When every track closes its own notes (per key and channel the track's
+	// note-ons and note-offs balance), the order inside the track is the
+	// order of the notes: judge each track strictly in that order.
+	balanced := true
+	for _, t := range s.Tracks {
+		cnt := map[[2]byte]int{}
+		for _, e := range t.Events {
+			if e.Bytes[0] >= 0xF0 {
+				continue
+			}
+			if e.IsNoteOn() {
+				cnt[[2]byte{e.Channel(), e.Key()}]++
+			} else if e.IsNoteOff() {
+				cnt[[2]byte{e.Channel(), e.Key()}]--
+			}
+		}
+		for _, n := range cnt {
+			if n != 0 {
+				balanced = false
+			}
+		}
+	}
+	if balanced {
+		for ti, t := range s.Tracks {
+			sounding := map[[2]byte]int{}
+			for _, e := range t.Events {
+				if e.Bytes[0] >= 0xF0 {
+					continue
+				}
+				k := [2]byte{e.Channel(), e.Key()}
+				if e.IsNoteOn() {
+					sounding[k]++
+				} else if e.IsNoteOff() {
+					if sounding[k] == 0 {
+						return smfErr("unmatched-off", "track %d: note-off key %d channel %d at tick %d comes before any note-on it could close", ti, e.Key(), e.Channel(), e.Tick)
+					}
+					sounding[k]--
+				}
+			}
+		}
+		return nil
+	}
 	var evs []SMFEvent
 	for _, t := range s.Tracks {
 		for _, e := range t.Events {
